@@ -162,9 +162,16 @@ def execute(plan):
                     if behaviour in ("ok", "list"):
                         continue            # a working decoder: C18's business
                 if state == "shipped":
+                    # shipped plugins (real code): sub-types they have no decoder for must still be preserved
                     m = plug.ud_module(pelgen.section_creator(rec, s), s["comp"])
-                    if m != "udparsers.m2c00.m2c00" or s["subtype"] in (72, 73, 84):
+                    bump("shipped:" + m.rsplit(".", 1)[-1])
+                    if m == "udparsers.m2c00.m2c00" and s["subtype"] in (72, 73, 84):
                         continue
+                    if m == "udparsers.oe500.oe500" and s["subtype"] in (1, 2, 3, 4, 5):
+                        if isinstance(sec.get("Error"), str) and not plug.payload_recoverable(sec, payload, parse):
+                            vio.append(V("payload-not-recoverable", ctx + ": the shipped parser failed (%s) and the payload is not dumped" % sec["Error"][:80]))
+                        continue
+                    state = state + ":unsupported-subtype"
                 # ---- no working decoder: payload must be recoverable
                 if not plug.payload_recoverable(sec, payload, parse):
                     got = plug.recover(sec.get("Data"), parse)
